@@ -13,6 +13,7 @@ use crate::refm::{reward_bounds, scaled_value, APY_CAP, BUCKETS, UNIT, WEEK};
 use crate::ser::U;
 
 const P: &str = "C38";
+const PA: &str = "C19";
 const MAX_CLOCK: i64 = 4_000_000_000;
 /// Above this many GT cost-growth steps the mint itself may legitimately overflow in the store.
 const MAX_GROW_STEPS: u128 = 2_000;
@@ -26,7 +27,7 @@ pub struct Cfg {
     pub n_markets: u8,
     pub n_pids: u8,
     /// Fault-injecting sub-batch (tx loss / duplication / delay, strangers, injected CPI failures,
-    /// clock regressions, misconfiguration). `false` = fault-free sub-batch.
+    /// misconfiguration). `false` = fault-free sub-batch.
     pub faults: bool,
     pub claim_enabled: bool,
     pub min_stake_value: U,
@@ -34,6 +35,10 @@ pub struct Cfg {
     pub gt_cost: U,
     pub gt_grow_factor: U,
     pub gt_grow_step: u64,
+    /// C19 twins: every landed privileged / owner-gated LP transaction is re-run on a fork of its
+    /// pre-state, re-signed by addresses lacking the authority / ownership.
+    #[serde(default)]
+    pub c19: bool,
 }
 
 #[derive(Clone, Copy, Debug, Serialize, Deserialize, PartialEq, Eq, PartialOrd, Ord)]
@@ -98,6 +103,13 @@ pub enum AdminOp {
     Range { start: u8, end: u8, values: Vec<U> },
     Sparse { idx: Vec<u8>, values: Vec<U> },
     Disable { market: u8 },
+    Staleness(u32),
+    /// Propose the other administrator key as the new authority.
+    TransferAuthority,
+    /// Signed by the pending authority (or, when none is pending, by the other administrator key).
+    AcceptAuthority,
+    /// Extra controller (index 1..=3) for a market token.
+    CreateController { market: u8, index: u8 },
 }
 
 #[derive(Clone, Debug, Serialize, Deserialize, PartialEq, Eq)]
@@ -136,6 +148,22 @@ struct Sim<'a> {
     bps: [u32; 3],
     gm_total: [u64; N_MARKETS],
     pending: Vec<(usize, Op, Who, u8)>,
+    auth: solana_program::pubkey::Pubkey,
+    pending_auth: Option<solana_program::pubkey::Pubkey>,
+    staleness: u32,
+}
+
+/// An administrative instruction with every argument resolved.
+enum RAdmin {
+    SetClaim(bool),
+    MinStake(u128, bool),
+    Range(u8, u8, Vec<u128>),
+    Sparse(Vec<u8>, Vec<u128>),
+    Disable(usize),
+    Staleness(u32),
+    Transfer(solana_program::pubkey::Pubkey),
+    Accept,
+    Create(usize, u64),
 }
 
 fn dur_class(total: u128) -> &'static str {
@@ -260,6 +288,34 @@ impl<'a> Sim<'a> {
         }
     }
 
+    /// C19: run each twin on its own fork of the pre-state; every one of them must be rejected and
+    /// leave all accounts unchanged.
+    fn run_twins(&self, obs: &mut Obs, pre: &World, ix_name: &str, twins: Vec<(String, solana_program::instruction::Instruction)>) {
+        for (variant, ix) in twins {
+            let mut f = pre.clone();
+            let out = f.process(ix);
+            obs.fault("byzantine_twin");
+            obs.probe(&format!("c19_twin:lp.{ix_name}"));
+            obs.outcome("twin", ix_name, &out.class());
+            obs.event(|| format!("twin {ix_name} {variant} -> {}", out.class()));
+            if !obs.require(!out.ok, PA, "stranger_accepted", || format!("ix={ix_name},variant={variant},program=liquidity_provider"), || {
+                format!("{ix_name} re-signed by {variant} landed (the legitimate transaction landed on the same pre-state)")
+            }) {
+                return;
+            }
+            if !obs.require(f.accounts == pre.accounts, PA, "rejection_changed_state", || format!("ix={ix_name},variant={variant},program=liquidity_provider"), || {
+                format!("rejected {ix_name} by {variant} ({}) left accounts changed", out.class())
+            }) {
+                return;
+            }
+        }
+    }
+
+    /// The outsider and another staker (both hold GM and a GT account).
+    fn intruders(&self, owner: usize) -> [(&'static str, usize); 2] {
+        [("stranger", N_USERS - 1), ("staker", (owner + 1) % (N_USERS - 1))]
+    }
+
     fn stake(&mut self, obs: &mut Obs, p: PosRef, amount: u64, opts: &TxOpts) {
         let (u, m) = (p.user as usize, p.market as usize);
         if !post_prices(&mut self.w, self.d, &self.bps) {
@@ -269,12 +325,28 @@ impl<'a> Sim<'a> {
         let owner = self.d.users[u];
         let pre_bal = self.gm_balance(u, m);
         let now = self.now();
+        let pre = self.cfg.c19.then(|| self.w.clone());
         let out = self.w.process_tx(&[stake_ix(self.d, self.a, &owner, &self.a.gm_atas[u][m], m, &keys, p.pid as u64, amount)], opts);
         obs.outcome("owner", "stake", &out.class());
         obs.event(|| format!("stake {p:?} amount={amount} -> {}", out.class()));
         self.note_fault(obs, &out);
         if !out.ok {
             return;
+        }
+        if let Some(pre) = &pre {
+            // somebody else stakes the owner's tokens into a position of their own
+            let twins = self
+                .intruders(u)
+                .iter()
+                .map(|(n, t)| {
+                    let tk = self.a.positions[*t][m][p.pid as usize];
+                    (format!("{n}_victim_token_account"), stake_ix(self.d, self.a, &self.d.users[*t], &self.a.gm_atas[u][m], m, &tk, p.pid as u64, amount))
+                })
+                .collect();
+            self.run_twins(obs, pre, "stake_gm", twins);
+            if obs.should_stop() {
+                return;
+            }
         }
         if self.pos.contains_key(&p) {
             obs.violation(P, "stake_state", "field=reinit".into(), format!("stake landed on the open position {p:?}"));
@@ -392,7 +464,20 @@ impl<'a> Sim<'a> {
             }
         }
         let pre_gt = user_gt_amount(&self.w, &self.a.gt_users[s]);
+        let pre = (self.cfg.c19 && who == Who::Owner).then(|| self.w.clone());
         let out = self.w.process_tx(&[ix], opts);
+        if let (Some(pre), true) = (&pre, out.ok) {
+            let u = p.user as usize;
+            let mut twins = Vec::new();
+            for (n, t) in self.intruders(u) {
+                twins.push((format!("{n}_own_accounts"), claim_ix(self.d, self.a, &self.d.users[t], &self.a.gt_users[t], m, &keys, p.pid as u64)));
+                twins.push((format!("{n}_victim_accounts"), claim_ix(self.d, self.a, &self.d.users[t], &self.a.gt_users[u], m, &keys, p.pid as u64)));
+            }
+            self.run_twins(obs, pre, "claim_gt", twins);
+            if obs.should_stop() {
+                return;
+            }
+        }
         let role = if who == Who::Owner { "owner" } else { "stranger" };
         obs.outcome(role, "claim", &out.class());
         obs.event(|| format!("claim {p:?} by {who:?} -> {}", out.class()));
@@ -467,7 +552,19 @@ impl<'a> Sim<'a> {
         let pre_gt = user_gt_amount(&self.w, &self.a.gt_users[s]);
         let pre_bal = self.gm_balance(s, m);
         let pre_vault = token_balance(&self.w, &keys.1);
+        let pre = (self.cfg.c19 && who == Who::Owner).then(|| self.w.clone());
         let out = self.w.process_tx(&[ix], opts);
+        if let (Some(pre), true) = (&pre, out.ok) {
+            let mut twins = Vec::new();
+            for (n, t) in self.intruders(u) {
+                twins.push((format!("{n}_own_accounts"), unstake_ix(self.d, self.a, &self.d.users[t], &self.a.gt_users[t], &self.a.gm_atas[t][m], m, &keys, p.pid as u64, amount)));
+                twins.push((format!("{n}_victim_accounts"), unstake_ix(self.d, self.a, &self.d.users[t], &self.a.gt_users[u], &self.a.gm_atas[u][m], m, &keys, p.pid as u64, amount)));
+            }
+            self.run_twins(obs, pre, "unstake_lp", twins);
+            if obs.should_stop() {
+                return;
+            }
+        }
         let role = if who == Who::Owner { "owner" } else { "stranger" };
         let kind = match &mp {
             Some(x) if amount == x.amount => "unstake_full",
@@ -580,29 +677,32 @@ impl<'a> Sim<'a> {
 
     // -------------------------------------------------------------- other steps
 
-    fn admin(&mut self, obs: &mut Obs, op: &AdminOp, stranger: bool) {
-        let signer = if stranger { self.d.users[N_USERS - 1] } else { self.a.authority };
-        let role = if stranger { "stranger" } else { "admin" };
-        if stranger {
-            obs.fault("byzantine_twin");
+    fn admin_ix(&self, r: &RAdmin, signer: &solana_program::pubkey::Pubkey) -> solana_program::instruction::Instruction {
+        match r {
+            RAdmin::SetClaim(e) => set_claim_enabled_ix(self.a, signer, *e),
+            RAdmin::MinStake(v, _) => min_stake_ix(self.a, signer, *v),
+            RAdmin::Range(s, e, v) => gradient_range_ix(self.a, signer, *s, *e, v.clone()),
+            RAdmin::Sparse(i, v) => gradient_sparse_ix(self.a, signer, i.clone(), v.clone()),
+            RAdmin::Disable(m) => disable_controller_ix(self.d, self.a, signer, *m),
+            RAdmin::Staleness(x) => staleness_ix(self.a, signer, *x),
+            RAdmin::Transfer(to) => transfer_authority_ix(self.a, signer, to),
+            RAdmin::Accept => accept_authority_ix(self.a, signer),
+            RAdmin::Create(m, i) => create_controller_ix(self.a, signer, &self.d.markets[*m].market_token, *i),
         }
-        match op {
-            AdminOp::SetClaim(e) => {
-                let out = self.w.process(set_claim_enabled_ix(self.a, &signer, *e));
-                obs.outcome(role, "set_claim_enabled", &out.class());
-                obs.event(|| format!("set_claim_enabled {e} -> {}", out.class()));
-                if out.ok {
-                    self.claim_enabled = *e;
-                }
-            }
-            AdminOp::MinStake(v) => {
-                let out = self.w.process(min_stake_ix(self.a, &signer, v.0));
-                obs.outcome(role, "min_stake", &out.class());
-                obs.event(|| format!("min_stake {} -> {}", v.0, out.class()));
-                if out.ok {
-                    self.min_stake = v.0;
-                }
-            }
+    }
+
+    fn other_admin(&self) -> solana_program::pubkey::Pubkey {
+        if self.auth == self.a.authority {
+            self.a.authority2
+        } else {
+            self.a.authority
+        }
+    }
+
+    fn admin(&mut self, obs: &mut Obs, op: &AdminOp, stranger: bool) {
+        let r = match op {
+            AdminOp::SetClaim(e) => RAdmin::SetClaim(*e),
+            AdminOp::MinStake(v) => RAdmin::MinStake(v.0, false),
             AdminOp::MinStakeAt { pos, frac, off } => {
                 let p = self.norm(*pos);
                 let v = match self.pos.get(&p) {
@@ -610,57 +710,120 @@ impl<'a> Sim<'a> {
                         let amount = ((mp.amount as u128 * *frac as u128) / 256) as u64;
                         let remaining = mp.amount - amount;
                         let nv = if remaining == 0 { 0 } else { scaled_value(mp.value, remaining, mp.amount) };
-                        if *off >= 0 { nv.saturating_add(*off as u128) } else { nv.saturating_sub(off.unsigned_abs() as u128) }
+                        if *off >= 0 {
+                            nv.saturating_add(*off as u128)
+                        } else {
+                            nv.saturating_sub(off.unsigned_abs() as u128)
+                        }
                     }
                     None => 0,
                 };
-                let out = self.w.process(min_stake_ix(self.a, &signer, v));
-                obs.outcome(role, "min_stake_at_boundary", &out.class());
-                obs.event(|| format!("min_stake_at {p:?} frac={frac} off={off} -> {v} {}", out.class()));
-                if out.ok {
-                    self.min_stake = v;
+                RAdmin::MinStake(v, true)
+            }
+            AdminOp::Range { start, end, values } => RAdmin::Range(*start, *end, values.iter().map(|x| x.0).collect()),
+            AdminOp::Sparse { idx, values } => RAdmin::Sparse(idx.clone(), values.iter().map(|x| x.0).collect()),
+            AdminOp::Disable { market } => RAdmin::Disable((*market % self.cfg.n_markets) as usize),
+            AdminOp::Staleness(x) => RAdmin::Staleness(*x),
+            AdminOp::TransferAuthority => RAdmin::Transfer(self.other_admin()),
+            AdminOp::AcceptAuthority => RAdmin::Accept,
+            AdminOp::CreateController { market, index } => RAdmin::Create((*market as usize) % N_MARKETS, 1 + (*index % 3) as u64),
+        };
+        let name: &'static str = match &r {
+            RAdmin::SetClaim(_) => "set_claim_enabled",
+            RAdmin::MinStake(..) => "update_min_stake_value",
+            RAdmin::Range(..) => "update_apy_gradient_range",
+            RAdmin::Sparse(..) => "update_apy_gradient_sparse",
+            RAdmin::Disable(_) => "disable_lp_token_controller",
+            RAdmin::Staleness(_) => "set_pricing_staleness",
+            RAdmin::Transfer(_) => "transfer_authority",
+            RAdmin::Accept => "accept_authority",
+            RAdmin::Create(..) => "create_lp_token_controller",
+        };
+        // the address entitled to sign this instruction
+        let entitled = match &r {
+            RAdmin::Accept => self.pending_auth.unwrap_or_else(|| self.other_admin()),
+            _ => self.auth,
+        };
+        let outsider = self.d.users[N_USERS - 1];
+        let signer = if stranger { outsider } else { entitled };
+        let role = if stranger { "stranger" } else { "admin" };
+        if stranger {
+            obs.fault("byzantine_twin");
+        }
+        let pre = (self.cfg.c19 && !stranger).then(|| self.w.clone());
+        let out = self.w.process(self.admin_ix(&r, &signer));
+        match &r {
+            RAdmin::Range(_, _, vals) => self.gradient_outcome(obs, role, "gradient_range", &out, vals),
+            RAdmin::Sparse(_, vals) => self.gradient_outcome(obs, role, "gradient_sparse", &out, vals),
+            _ => {
+                obs.outcome(role, name, &out.class());
+                obs.event(|| format!("{name} by {role} -> {}", out.class()));
+            }
+        }
+        if stranger && out.ok {
+            obs.probe("stranger_admin_landed");
+        }
+        if let (Some(pre), true) = (&pre, out.ok) {
+            let mut twins = vec![("stranger".to_string(), self.admin_ix(&r, &outsider)), ("staker".to_string(), self.admin_ix(&r, &self.d.users[0]))];
+            match &r {
+                RAdmin::Accept => twins.push(("current_authority".to_string(), self.admin_ix(&r, &self.auth))),
+                _ => {
+                    if let Some(pa) = self.pending_auth {
+                        if pa != self.auth {
+                            obs.probe("c19_pending_authority_twin");
+                            twins.push(("pending_authority".to_string(), self.admin_ix(&r, &pa)));
+                        }
+                    }
+                }
+            }
+            self.run_twins(obs, pre, name, twins);
+            if obs.should_stop() {
+                return;
+            }
+        }
+        if !out.ok {
+            return;
+        }
+        // whatever landed is applied to the model (also when a stranger signed: C38 does not speak
+        // about authorisation, C19 does)
+        match r {
+            RAdmin::SetClaim(e) => self.claim_enabled = e,
+            RAdmin::MinStake(v, boundary) => {
+                self.min_stake = v;
+                if boundary {
                     obs.probe("min_stake_boundary_set");
                 }
             }
-            AdminOp::Range { start, end, values } => {
-                let vals: Vec<u128> = values.iter().map(|x| x.0).collect();
-                let out = self.w.process(gradient_range_ix(self.a, &signer, *start, *end, vals.clone()));
-                self.gradient_outcome(obs, role, "gradient_range", &out, &vals);
-                if out.ok {
-                    for (i, v) in vals.iter().enumerate() {
-                        if let Some(g) = self.grad.get_mut(*start as usize + i) {
-                            *g = *v;
-                        }
+            RAdmin::Range(start, _, vals) => {
+                for (i, v) in vals.iter().enumerate() {
+                    if let Some(g) = self.grad.get_mut(start as usize + i) {
+                        *g = *v;
                     }
                 }
             }
-            AdminOp::Sparse { idx, values } => {
-                let vals: Vec<u128> = values.iter().map(|x| x.0).collect();
-                let out = self.w.process(gradient_sparse_ix(self.a, &signer, idx.clone(), vals.clone()));
-                self.gradient_outcome(obs, role, "gradient_sparse", &out, &vals);
-                if out.ok {
-                    for (i, v) in idx.iter().zip(vals.iter()) {
-                        if let Some(g) = self.grad.get_mut(*i as usize) {
-                            *g = *v;
-                        }
+            RAdmin::Sparse(idx, vals) => {
+                for (i, v) in idx.iter().zip(vals.iter()) {
+                    if let Some(g) = self.grad.get_mut(*i as usize) {
+                        *g = *v;
                     }
                 }
             }
-            AdminOp::Disable { market } => {
-                let m = (*market % self.cfg.n_markets) as usize;
-                let out = self.w.process(disable_controller_ix(self.d, self.a, &signer, m));
-                obs.outcome(role, "disable_controller", &out.class());
-                obs.event(|| format!("disable_controller {m} -> {}", out.class()));
-                if out.ok {
-                    let g = read_gt(&self.w, self.d);
-                    self.disabled[m] = Some((self.now(), g.cum));
-                    obs.probe("controller_disabled");
-                }
+            RAdmin::Disable(m) => {
+                let g = read_gt(&self.w, self.d);
+                self.disabled[m] = Some((self.now(), g.cum));
+                obs.probe("controller_disabled");
             }
-        }
-        if stranger && self.w.tx_count > 0 {
-            // nothing else: the configuration invariant catches an unauthorised change only through
-            // the model staying in sync (we apply whatever landed)
+            RAdmin::Staleness(x) => self.staleness = x,
+            RAdmin::Transfer(to) => {
+                self.pending_auth = Some(to);
+                obs.probe("authority_transfer_proposed");
+            }
+            RAdmin::Accept => {
+                self.auth = signer;
+                self.pending_auth = None;
+                obs.probe("authority_transfer_accepted");
+            }
+            RAdmin::Create(..) => obs.probe("extra_controller_created"),
         }
     }
 
@@ -703,8 +866,11 @@ impl<'a> Sim<'a> {
             return;
         }
         if dt < 0 {
-            obs.fault("clock_regression");
-        } else if dt == 0 {
+            // Solana's clock is monotone: backward steps (old replays) are ignored
+            obs.probe("clock_backward_step_ignored");
+            return;
+        }
+        if dt == 0 {
             obs.probe("clock_stall");
         } else if dt as u128 > 53 * WEEK {
             obs.probe("clock_jump_gt_53_weeks");
@@ -774,7 +940,12 @@ impl<'a> Sim<'a> {
             }
         }
         if let Some(gs) = read_global(&self.w, self.a) {
-            let ok = gs.apy_gradient == self.grad && gs.claim_enabled == self.claim_enabled && gs.min_stake_value == self.min_stake;
+            let ok = gs.apy_gradient == self.grad
+                && gs.claim_enabled == self.claim_enabled
+                && gs.min_stake_value == self.min_stake
+                && gs.authority == self.auth
+                && gs.pending_authority == self.pending_auth.unwrap_or_default()
+                && gs.pricing_staleness_seconds == self.staleness;
             obs.require(ok, P, "config_state", || "case=global_state".into(), || {
                 format!("claim_enabled {} vs {}, min_stake {} vs {}, gradient equal {}", gs.claim_enabled, self.claim_enabled, gs.min_stake_value, self.min_stake, gs.apy_gradient == self.grad)
             });
@@ -855,15 +1026,16 @@ fn bad_apy(r: &mut Rng) -> u128 {
 }
 
 impl LpStaking {
-    fn gen_clock(r: &mut Rng, mode: u64, faults: bool, open: &[PosRef]) -> Step {
-        // weights: stall, seconds, hours, days, exact weeks, months, year+, extreme, regress, align
+    fn gen_clock(r: &mut Rng, mode: u64, open: &[PosRef]) -> Step {
+        // weights: stall, seconds, hours, days, exact weeks, months, year+, extreme, (unused: the cluster clock is
+        // monotone, no backward steps), align
         let w: [u32; 10] = match mode {
             0 => [3, 6, 6, 3, 1, 0, 0, 0, 1, 1],
             1 => [1, 2, 4, 6, 6, 3, 1, 0, 1, 6],
             2 => [1, 1, 1, 2, 4, 6, 6, 2, 1, 4],
             _ => [2, 3, 3, 3, 3, 3, 3, 1, 1, 4],
         };
-        let items: Vec<(u32, u8)> = w.iter().enumerate().map(|(i, x)| (*x, i as u8)).filter(|(x, i)| *x > 0 && (faults || *i != 8)).collect();
+        let items: Vec<(u32, u8)> = w.iter().enumerate().map(|(i, x)| (*x, i as u8)).filter(|(x, i)| *x > 0 && *i != 8).collect();
         let wk = WEEK as i64;
         match *r.weighted(&items) {
             0 => Step::Clock { dt: 0 },
@@ -874,7 +1046,6 @@ impl LpStaking {
             5 => Step::Clock { dt: r.range_i64(5 * wk, 60 * wk) },
             6 => Step::Clock { dt: r.range_i64(53 * wk, 120 * wk) },
             7 => Step::Clock { dt: r.range_i64(3, 25) * 31_557_600 + r.range_i64(0, wk) },
-            8 => Step::Clock { dt: -r.range_i64(1, 30) },
             _ => {
                 let pos = if open.is_empty() { PosRef { user: 0, market: 0, pid: 0 } } else { *r.pick(open) };
                 let any = r.range(1, 120) as u16;
@@ -893,7 +1064,7 @@ impl Scenario for LpStaking {
         "lp_staking"
     }
 
-    fn generate(&self, seed: u64, run: u64, _tier: Tier, _focus: &str) -> (Cfg, Vec<Step>) {
+    fn generate(&self, seed: u64, run: u64, _tier: Tier, focus: &str) -> (Cfg, Vec<Step>) {
         let mut rc = Rng::derive(seed, run, "lp.cfg");
         let faults = run % 2 == 1;
         let cfg = Cfg {
@@ -907,6 +1078,7 @@ impl Scenario for LpStaking {
             gt_cost: U(*rc.weighted(&[(4, 500_000_000_000u128), (2, 10_000_000_000_000), (1, 10_000_000_000)])),
             gt_grow_factor: U(*rc.weighted(&[(1, UNIT), (2, UNIT + UNIT / 100)])),
             gt_grow_step: *rc.weighted(&[(2, 1_000_000_000_000u64), (1, 100_000_000_000), (1, 10_000_000_000_000)]),
+            c19: focus == "C19" || run % 16 == 3,
         };
         let mode = rc.below(4);
         let n_steps = if rc.chance(4, 5) { rc.usize(5, 60) } else { rc.usize(60, 300) };
@@ -1002,7 +1174,7 @@ impl Scenario for LpStaking {
                     }
                     Step::User { op: Op::Unstake { pos, amt }, who, deliver, fail_cpi, probe: probe(&mut r) }
                 }
-                3 => Self::gen_clock(&mut r, mode, faults, &open),
+                3 => Self::gen_clock(&mut r, mode, &open),
                 4 if !open.is_empty() && r.chance(1, 6) => {
                     // boundary pair: minimum stake value set to what a partial unstake would leave (±1),
                     // immediately followed by that partial unstake
@@ -1014,7 +1186,7 @@ impl Scenario for LpStaking {
                 }
                 4 => {
                     let stranger = faults && r.chance(1, 8);
-                    let op = match r.below(12) {
+                    let op = match r.below(if cfg.c19 { 16 } else { 12 }) {
                         0..=3 => {
                             let e = r.bool();
                             if !stranger {
@@ -1069,13 +1241,14 @@ impl Scenario for LpStaking {
                             }
                             AdminOp::Sparse { idx, values }
                         }
-                        _ => {
-                            if r.chance(1, 4) {
-                                AdminOp::Disable { market: r.range(0, 1) as u8 }
-                            } else {
-                                AdminOp::SetClaim(r.bool())
-                            }
-                        }
+                        _ => match r.below(8) {
+                            0 | 1 => AdminOp::Disable { market: r.range(0, 1) as u8 },
+                            2 => AdminOp::Staleness(*r.pick(&[0u32, 1, 60, 300, 3600, u32::MAX])),
+                            3 | 4 => AdminOp::TransferAuthority,
+                            5 => AdminOp::AcceptAuthority,
+                            6 => AdminOp::CreateController { market: r.range(0, 1) as u8, index: r.range(0, 2) as u8 },
+                            _ => AdminOp::SetClaim(r.bool()),
+                        },
                     };
                     if let AdminOp::SetClaim(e) = &op {
                         if !stranger {
@@ -1120,6 +1293,9 @@ impl Scenario for LpStaking {
             bps: [10_000; 3],
             gm_total: [0; N_MARKETS],
             pending: Vec::new(),
+            auth: b.lp.authority,
+            pending_auth: None,
+            staleness: 300,
         };
         for m in 0..N_MARKETS {
             sim.gm_total[m] = (0..N_USERS).map(|u| sim.gm_balance(u, m)).sum();
@@ -1268,6 +1444,9 @@ impl Scenario for LpStaking {
         if cfg.faults {
             v.push(Cfg { faults: false, ..cfg.clone() });
         }
+        if cfg.c19 {
+            v.push(Cfg { c19: false, ..cfg.clone() });
+        }
         if cfg.n_users > 1 {
             v.push(Cfg { n_users: cfg.n_users - 1, ..cfg.clone() });
         }
@@ -1314,10 +1493,11 @@ impl Scenario for LpStaking {
 
     fn rule(&self) -> String {
         "1-3 stakers (+1 outsider), 1-2 GM markets, 1-3 position ids per (staker, market); GT minting cost / growth and the 53-bucket APY gradient (flat, random, log-random, step, spikes at buckets 0-3/51/52, ramp) drawn per run; \
-         steps = stake(amount) with fresh prices, claim, unstake(full / fraction / full±k / absolute / zero), clock (stall, seconds, hours, days, exact weeks ±1 s, months, > 53 weeks, years, aligned to start+k·week±1 s; regressions in the fault batch), \
-         gradient range/sparse updates (within, exactly at, above the 200 % cap; malformed ranges), claim toggle, min-stake updates, controller disable, dust transfers into position vaults, price moves. \
-         Odd runs inject faults: tx loss, duplication and delayed delivery of user txs, strangers signing claims/unstakes/admin ops, injected CPI failures, clock regressions, misconfiguration. \
+         steps = stake(amount) with fresh prices, claim, unstake(full / fraction / full±k / absolute / zero), clock (stall, seconds, hours, days, exact weeks ±1 s, months, > 53 weeks, years, aligned to start+k·week±1 s; the clock never moves backwards), \
+         gradient range/sparse updates (within, exactly at, above the 200 % cap; malformed ranges), claim toggle, min-stake updates (also exactly at a partial unstake's remaining value ±1), pricing staleness, authority transfer / accept, extra controllers, controller disable, dust transfers into position vaults, price moves. \
+         Odd runs inject faults: tx loss, duplication and delayed delivery of user txs, strangers signing claims/unstakes/admin ops, injected CPI failures, misconfiguration. \
          The private reward functions are observed through the GT actually minted to the owner's store user account by claim_gt / unstake_lp; the reference interval is computed in big integers from (stake value from the store's MarketTokenValue event, stake start, accrual end, gradient table kept by the model, cumulative inverse-cost factor read from the store account before/after). \
+         C19 twins (focus C19 and every 16th run): each landed stake_gm / claim_gt / unstake_lp / authority-gated instruction is re-run on a fork of its pre-state re-signed by the outsider, by another staker (with their own and with the victim's accounts), by the pending authority between transfer_authority and accept_authority, and accept_authority by the current authority; each twin must fail and leave all accounts unchanged. \
          A case is distinct by (operation trigram, duration class, open positions, dust, claim flag)."
             .into()
     }
